@@ -415,7 +415,7 @@ def native_method(ex, recv, name, args, kwargs, line):
     if isinstance(recv, PList):
         it = recv.items
         if name == "append":
-            ex.note_write(recv)
+            ex.note_write(recv, stored=args[0])
             it.append(args[0])
             return None
         if name == "extend":
